@@ -210,7 +210,7 @@ func init() {
 			if res != "sat" {
 				return nil
 			}
-			v := &Violation{Harness: r.h.name, Label: label, Inputs: r.modelInputs(m), Choices: copyChoices(r.choices), Path: r.pathString()}
+			v := &Violation{Harness: r.h.name, Label: label, Inputs: r.modelInputs(m), Choices: copyChoices(r.choices), Fns: r.modelFns(m), Path: r.pathString()}
 			r.h.mu.Lock()
 			if _, have := r.h.reached[label]; !have {
 				r.h.reached[label] = v
